@@ -226,7 +226,48 @@ mod verif_native {
         let types: Map<String, Value> = defs.iter().map(|(n, ms)| (n.clone(), Value::Array(ms.iter().map(|(m, t)| json!({"name": m, "type": t})).collect()))).collect();
         json!({"types": types, "primaryType": primary, "domain": domain, "message": message}).to_string()
     }
+    /// C17 "never hangs": every evaluation of the code under test is registered with a watchdog thread; one that is still
+    /// running after LIMIT (it normally takes microseconds) is reported with its input and the test process is ended.
+    mod watchdog {
+        use std::{collections::HashMap, io::Write as _, sync::{Mutex, OnceLock}, thread, time::{Duration, Instant}};
+        pub const LIMIT: Duration = Duration::from_secs(60);
+        static SLOTS: OnceLock<Mutex<HashMap<thread::ThreadId, (Instant, String, String)>>> = OnceLock::new();
+        pub struct Guard;
+        pub fn enter(input: &str) -> Guard {
+            let slots = SLOTS.get_or_init(|| {
+                thread::spawn(watch);
+                Mutex::new(HashMap::new())
+            });
+            let t = thread::current();
+            if let Ok(mut g) = slots.lock() {
+                g.insert(t.id(), (Instant::now(), t.name().unwrap_or("?").to_string(), input.to_string()));
+            }
+            Guard
+        }
+        impl Drop for Guard {
+            fn drop(&mut self) {
+                if let Some(Ok(mut g)) = SLOTS.get().map(|s| s.lock()) {
+                    g.remove(&thread::current().id());
+                }
+            }
+        }
+        fn watch() {
+            loop {
+                thread::sleep(Duration::from_millis(500));
+                if let Some(Ok(g)) = SLOTS.get().map(|s| s.lock()) {
+                    for (t0, name, input) in g.values() {
+                        if t0.elapsed() > LIMIT {
+                            // written directly: the print macros of a thread spawned by a test are captured by libtest
+                            let _ = writeln!(std::io::stdout(), "\nVERIF-NATIVE-HANG {name} did not terminate within {} s on input: {input}", LIMIT.as_secs());
+                            std::process::exit(3);
+                        }
+                    }
+                }
+            }
+        }
+    }
     fn run_real(doc: &str) -> Option<([u8; 32], [u8; 32], [u8; 32])> {
+        let _alive = watchdog::enter(doc);
         let d = doc.to_string();
         let r = std::panic::catch_unwind(move || serde_json::from_str::<TypedData>(&d).ok().map(|t| (t.signing_message().0, t.domain_separator().0, t.message_hash().0)));
         r.unwrap_or_else(|_| panic!("typed data panicked on {doc}"))
